@@ -139,24 +139,33 @@ def doc_lines(key, style, marks, indent):
     return [f"{pad}!{m} {w[0]} {w[1]}", f"{pad}! {w[2]}"]
 
 
-def render(styles, marks, inline=(), seps=None):
+def render(styles, marks, inline=(), seps=None, gaps=None):
     """styles: {key: style}; inline: keys whose first doc line is placed on the statement line (after style only);
     seps: {key: separator name} placed between the documentation of `key` and the next statement / its pre-docs."""
     seps = seps or {}
+    gaps = gaps or {}
+
+    def gapped(key, lines, pad):
+        """the doc comment of `key` with a blank / ordinary comment line between its two lines"""
+        g = gaps.get(key)
+        if not g:
+            return lines
+        mid = {"blank": [""], "comment": [f"{pad}! ordinary comment zz{key}"], "both": ["", f"{pad}! ordinary comment zz{key}"]}[g]
+        return lines[:1] + mid + lines[1:]
+
     out = []
     for i, (key, stmt, indent) in enumerate(SKELETON):
         pad = "  " * indent
         st = styles.get(key) if key else None
         if st in ("pre", "alt-pre"):
-            out += doc_lines(key, st, marks, indent)
+            out += gapped(key, doc_lines(key, st, marks, indent), pad)
         if st == "after" and key in inline:
             w = words(key)
-            out.append(f"{pad}{stmt} !{marks['docmark']} {w[0]} {w[1]}")
-            out.append(f"{pad}!{marks['docmark']} {w[2]}")
+            out += gapped(key, [f"{pad}{stmt} !{marks['docmark']} {w[0]} {w[1]}", f"{pad}!{marks['docmark']} {w[2]}"], pad)
         else:
             out.append(pad + stmt)
             if st in ("after", "alt-after"):
-                out += doc_lines(key, st, marks, indent)
+                out += gapped(key, doc_lines(key, st, marks, indent), pad)
         sep = seps.get(key)
         if sep:
             blank_first = st == "alt-after"
@@ -183,13 +192,13 @@ def collect_docs(project):
     return docs
 
 
-def check_attachment(st: Stats, styles, marks, inline, seps, stratum, feats):
-    src = render(styles, marks, inline, seps)
+def check_attachment(st: Stats, styles, marks, inline, seps, stratum, feats, gaps=None):
+    src = render(styles, marks, inline, seps, gaps)
     opts = dict(display=["public", "private", "protected"], proc_internals=True, **marks)
     r = fordrun.build_fast({"src/m.f90": src}, opts)
     st.evaluations += 1
     st.transitions += 1
-    inp = dict(styles=styles, marks=marks, inline=sorted(inline), seps=seps, source=src)
+    inp = dict(styles=styles, marks=marks, inline=sorted(inline), seps=seps, gaps=gaps or {}, source=src)
     if r.error is not None or not r.project or not r.project.files or "ERROR in file" in r.log or "Error parsing" in r.log:
         st.violation("ford-failed", stratum, feats, inp, repr(r.error) + r.log[-300:], "parses")
         st.stratum(stratum, 1)
@@ -248,6 +257,13 @@ def attach_cases(tier):
     for k in doc_keys:
         for s in STYLES:
             yield ("single", k, s, 0, None, None, None)
+    # gaps: a blank / ordinary comment line inside one following-style comment (FORD keeps the comment together),
+    # for every entity x marker configuration x inline/own-line first line
+    for k in doc_keys:
+        for mi in range(len(MARKSETS)):
+            for g in ("blank", "comment", "both"):
+                for inl in (False, True):
+                    yield ("gap", k, "after", mi, g, inl, None)
 
 
 def run_attach(st: Stats, case):
@@ -255,6 +271,11 @@ def run_attach(st: Stats, case):
         _, s, mi, *_ = case
         styles = {k: s for k in KEYS}
         check_attachment(st, styles, MARKSETS[mi], (), {}, f"attach/all/{s}", dict(space="all", style=s, markset=mi, pair="", sep="", inline=False))
+    elif case[0] == "gap":
+        _, k, s, mi, g, inl, _ = case
+        styles = {x: "after" for x in KEYS}
+        check_attachment(st, styles, MARKSETS[mi], (k,) if inl else (), {}, f"attach/gap/{g}",
+                         dict(space="gap", style=s, markset=mi, pair=k, sep=g, inline=inl), gaps={k: g})
     elif case[0] == "single":
         _, k, s, mi, *_ = case
         check_attachment(st, {k: s}, MARKSETS[mi], (), {}, f"attach/single/{s}", dict(space="single", style=s, markset=mi, pair=k, sep="", inline=False))
@@ -364,7 +385,7 @@ META_KEYS = [("author", "Some One", "author"), ("version", "1.2", "version"), ("
              ("category", "tools", "category"), ("deprecated", "true", "deprecated"), ("display", "private", "display"),
              ("summary", "short summary text", "summary"), ("graph", "false", "graph"), ("license", "by", "license"),
              ("date", "today", "date"), ("proc_internals", "true", "proc_internals"), ("source", "true", "source"), ("num_lines", "5", None)]
-META_TARGETS = ["mod", "t1", "s1", "fn1", "v1", "gi", "pr", "c1", "b1", "a1"]
+META_TARGETS = ["mod", "t1", "s1", "fn1", "v1", "gi", "pr", "c1", "b1", "a1", "v23", "e1", "xs", "xa", "bd", "in1"]
 
 
 def run_meta(st: Stats, case):
@@ -405,13 +426,15 @@ def run_meta(st: Stats, case):
         if not ok:
             st.violation("metadata-line-shown-or-doc-lost", stratum, feats, inp, got, want)
         # the metadata value must be set on the entity
-        ent = find_entity(r.project, key)
-        if ent is not None and attr:
+        ents = find_entity(r.project, key)
+        for ent in (ents if isinstance(ents, list) else [ents]):
+            if ent is None or not attr:
+                continue
             val = getattr(ent.meta, attr, None)
             sval = " ".join(val) if isinstance(val, list) else str(val)
             if mv.lower() not in sval.lower():
                 ok = False
-                st.violation("metadata-not-set", stratum, feats, inp, sval, mv)
+                st.violation("metadata-not-set", stratum, dict(feats, on=ent.name), inp, sval, mv)
     st.stratum(stratum, 0 if ok else 1)
 
 
@@ -425,6 +448,14 @@ def find_entity(project, key):
             "pr": project.programs[0], "c1": [v for v in t.variables if v.name == "c1"][0],
             "b1": [b for b in t.boundprocs if b.name == "b1"][0],
             "a1": [p for p in m.subroutines if p.name == "s1"][0].args[0],
+            # one statement declaring several names: the metadata applies to each of them
+            "v23": [v for v in m.variables if v.name in ("v2", "v3")],
+            "b23": [b for b in t.boundprocs if b.name in ("b2", "b3")],
+            "e1": [v for e in m.enums for v in e.variables if v.name == "e1"][0],
+            "xs": [p for p in project.procedures if p.name == "xs"][0],
+            "xa": [p for p in project.procedures if p.name == "xs"][0].args[0],
+            "bd": project.blockdata[0],
+            "in1": [p for p in m.functions[0].subroutines if p.name == "in1"][0],
         }[key]
     except Exception:  # noqa
         return None
@@ -469,7 +500,7 @@ def replay(path):
         run_meta(st, (i["entity"], tuple(next(m for m in META_KEYS if m[0] == i["meta"][0])), i["colon_text"]))
         print(i["source"])
     else:
-        check_attachment(st, i["styles"], i["marks"], tuple(i["inline"]), i["seps"], rec["site"], rec["features"])
+        check_attachment(st, i["styles"], i["marks"], tuple(i["inline"]), i["seps"], rec["site"], rec["features"], gaps=i.get("gaps"))
         print(i["source"])
     for v in st.violations:
         print("REPRODUCED", v["clause"], v["features"].get("entity"), "got", v["observed"], "want", v["expected"])
